@@ -767,6 +767,23 @@ def case_api(ctx, inp):
             if kw.get("partition_size"):
                 chk("partition sizes", [len(p) for p in parts_of(r)] if seq else [0],
                     ([kw["partition_size"]] * (len(seq) // kw["partition_size"]) + ([len(seq) % kw["partition_size"]] if len(seq) % kw["partition_size"] else [])) if seq else [0])
+        elif op == "tasklike":
+            # elements that LOOK like dask tasks (a tuple headed by a callable, also nested in lists / dicts) are data:
+            # from_sequence must hand them back unchanged, and every operation must see them as they are
+            pool = [(len, "abc"), (max, 1, 2), [(len, "ab")], {"f": (min, 3, 4)}, (1, 2), "plain", (str, 5), ((len, "x"),)]
+            tl = [rng.choice(pool) for _ in range(max(1, sum(sizes)))]
+            kw2 = rng.choice([{}, {"npartitions": rng.randint(1, 4)}, {"partition_size": rng.randint(1, 3)}])
+            tb = db.from_sequence(tl, **kw2)
+            chk("from_sequence of task-like elements", list(tb), tl)
+            chk("map over task-like elements", list(tb.map(lambda e: type(e).__name__)), [type(e).__name__ for e in tl])
+            chk("filter / count", [list(tb.filter(lambda e: isinstance(e, tuple))), tb.count().compute()],
+                [[e for e in tl if isinstance(e, tuple)], len(tl)])
+            chk("repartition", list(tb.repartition(npartitions=rng.randint(1, 5))), tl)
+            chk("persist", list(tb.persist(scheduler="sync")), tl)
+            chk("to_delayed / from_delayed", list(db.from_delayed(tb.to_delayed())), tl)
+            chk("concat / zip", [list(db.concat([tb, tb])), list(db.zip(tb, tb))], [tl + tl, list(zip(tl, tl))])
+            chk("take", list(tb.take(2, npartitions=-1, warn=False)), tl[:2])
+            chk("map producing task-like values", list(tb.map(lambda e: (len, "zz"))), [(len, "zz")] * len(tl))
         elif op == "fold_set":
             chk("fold into a set", b.map(num).fold(lambda acc, x: acc | {x}, set.union, initial=set(), split_every=se).compute(),
                 set(map(num, seq)))
@@ -1433,7 +1450,7 @@ def gen_parts(rng, maxparts=9, maxlen=5, lo=-4, hi=9):
 
 API_OPS = ["map", "starmap", "filter", "map_partitions", "pluck", "flatten", "distinct", "frequencies", "topk", "stats",
            "foldby", "groupby", "join", "accumulate", "take", "repartition", "from_sequence", "fold_set", "reduction",
-           "multi_consumer", "pipeline", "pipeline", "pipeline", "foldby_joint", "delayed", "same_bag_twice", "joint_alias"]
+           "multi_consumer", "pipeline", "pipeline", "pipeline", "foldby_joint", "delayed", "same_bag_twice", "joint_alias", "tasklike"]
 
 
 def generate(ctx):
@@ -1445,6 +1462,7 @@ def generate(ctx):
     yield "repartition", {"parts": [[i] for i in range(15)], "m": 11}
     yield "api", {"op": "same_bag_twice", "kind": "int", "sizes": [3, 0, 2], "seed": 1, "se": None, "k": 0, "m": 1, "mb": None, "nout": None}
     yield "api", {"op": "joint_alias", "kind": "int", "sizes": [3, 3], "seed": 2, "se": None, "k": 0, "m": 1, "mb": None, "nout": None}
+    yield "api", {"op": "tasklike", "kind": "int", "sizes": [2, 1], "seed": 3, "se": None, "k": 0, "m": 1, "mb": None, "nout": None}
     ndisk = [0]
     for n, m in ((15, 11), (15, 13), (26, 23), (29, 25), (30, 11)):   # int(i*(n/m)) != i*n//m
         yield "repartition", {"parts": [[i] for i in range(n)], "m": m}
